@@ -350,7 +350,7 @@ func runC13(c *fw.Ctx, cs fw.Case) {
 
 		// the same windows on one shared table (aspiration pattern), then the full window: the contract
 		// must survive whatever the narrowed searches left in the table
-		if fp := root.h.Final(); cfg.posDetermined && repetitionFree(root.h) && fp.Half+depth < 100 && !moveless {
+		if fp := root.h.Final(); cfg.posDetermined && repetitionFree(root.h) && fp.Half+depth < 100 && !moveless && depth == ttSafeDepth(root.h, depth) {
 			inner, tname := newTable(context.Background(), r.Intn(7))
 			ws := windowsAround(r, v, 0.125)
 			ws = append(ws, [2]refsearch.Score{{Kind: refsearch.Loss}, {Kind: refsearch.Win}})
